@@ -620,7 +620,9 @@ def _run_exp(task):
         elif out['kind'] == 'nan':
             post = z3.Not(inr)
         elif out['kind'] == 'fin':
-            post = z3.And(z3.BoolVal(out['sign'] is False), z3.If(inr, z3.And(out['D'] == R, z3.BoolVal(bool(out['inexact'])) == d['inexact']), z3.Or(out['D'] == lo, out['D'] == hi)))
+            post = z3.And(z3.BoolVal(out['sign'] is False), z3.If(inr, z3.And(out['D'] == R, z3.BoolVal(bool(out['inexact'])) == d['inexact']),
+                                                                         # out of range: the bound on the side that was exceeded; the value changed (inexact), and above the top the overflow flag is raised
+                                                                         z3.If(R > hi, z3.And(out['D'] == hi, z3.BoolVal(bool(out['inexact']) and bool(out['overflow']))), z3.And(out['D'] == lo, z3.BoolVal(bool(out['inexact']))))))
         else:
             post = False
         ok = e.require(post, info={'outcome': _pub(out)})
